@@ -171,7 +171,7 @@ def run(ck, P):
         evs = list(rules.path_events(ps_, path))
         if any(e in cps for e in evs):
             n_ += 1
-            if rules.path_assumes(path).get("tmp->ev") is not False:
+            if rules.path_assumes_aliased(ps_, path).get("tmp->ev") is not False:
                 bad_p = path
     ck.ob("C20.2-WHO-OPENS", ps_.site("descriptor only with a fresh poll record"), bad_p is None and n_ > 0,
           "%d path(s) reach create_priv_fd, all for a source that had no poll record yet" % n_ if bad_p is None else
